@@ -310,7 +310,7 @@ package app
 //@   ensures env: cmdEnv(p.command) == lastProcEnv() && cmdDir(p.command) == p.procConf.WorkingDir
 //@   ensures pgrp: !attachedIo(p) ==> pgrpSet(p.command)
 //@   ensures streams: !attachedIo(p) ==> p.stdOutDone != nil && (!p.procConf.IsTty ==> p.stdErrDone != nil)
-//@   assigns p.command, p.stdOutDone, p.stdErrDone, p.stdin, starts(), startAfterWait(starts()), cmdEnv[*], cmdDir[*], pgrpSet[*], lastProcEnv(), lastEnviron(), spawned[*]
+//@   assigns p.command, p.stdOutDone, p.stdErrDone, p.stdin, starts(), startAfterWait(starts()), cmdEnv[*], cmdDir[*], envConfigured[*], dirConfigured[*], pgrpSet[*], lastProcEnv(), lastEnviron(), spawned[*]
 
 //@ func (p *Process) getProcessStarter
 //@   ensures isclosure(result, "(*app.Process).getProcessStarter$1") && captured(result, "(*app.Process).getProcessStarter$1", "p") == p
@@ -327,7 +327,7 @@ package app
 //@   ensures env: cmdEnv(p.command) == lastProcEnv() && cmdDir(p.command) == p.procConf.WorkingDir
 //@   ensures streams: !attachedIo(p) ==> p.stdOutDone != nil && (!p.procConf.IsTty ==> p.stdErrDone != nil)
 //@   ensures !held(p.stateMtx) && !held(p.confMtx)
-//@   assigns p.procState.Status, p.procState.ExitCode, p.procState.Health, p.command, p.stdOutDone, p.stdErrDone, p.stdin, starts(), startAfterWait(starts()), cmdEnv[*], cmdDir[*], pgrpSet[*], lastProcEnv(), lastEnviron(), spawned[*]
+//@   assigns p.procState.Status, p.procState.ExitCode, p.procState.Health, p.command, p.stdOutDone, p.stdErrDone, p.stdin, starts(), startAfterWait(starts()), cmdEnv[*], cmdDir[*], envConfigured[*], dirConfigured[*], pgrpSet[*], lastProcEnv(), lastEnviron(), spawned[*]
 
 //@ func (p *Process) waitForStdOutErr
 //@   param cancel as cancelfunc
